@@ -29,6 +29,8 @@ import (
 	"encoding/hex"
 	"fmt"
 	"io"
+	"os"
+	"regexp"
 	"strings"
 	"sync"
 	"sync/atomic"
@@ -154,6 +156,7 @@ type c12Sut struct {
 	props   []*types.BlockProposal
 	emptyHash common.Hash
 	carrierTpl *types.Block
+	t          *testing.T
 	corpus  []c12Item
 	byCode  map[uint64][]int
 }
@@ -162,7 +165,6 @@ type c12Sut struct {
 type c12Peer struct {
 	handle     func() error
 	readStatus func() error
-	reset      func()
 	known      func() uint64
 	manifest   func() *snapshot.Manifest
 	queued     func() int
@@ -198,33 +200,43 @@ func c12NewSut(t *testing.T, name string, env *verifsim.C12Env, node *verifsim.C
 	s.fr = consensus.NewForkResolver(nil, s.dl, r.Chain, r.Stats)
 	// two peers: A is the hostile one under the harness' control, B a bystander that receives
 	// whatever the node relays
-	mk := func(id string) (*c12Stream, *c12Peer) {
-		st := &c12Stream{conn: &c12Conn{id: peer.ID(id)}}
-		p := s.h.VerifNewPeer(st)
-		// the peer's side of the handshake, then the node's real Handshake on the fake stream
-		st.set(c12StreamBytes(c12Frame(protocol.Handshake, c12HandshakePayload(r, time.Now().UTC().Unix(), 1000000), 0, 0)))
-		if err := p.Handshake(r.Chain.Network(), r.Head().Height(), r.Chain.GenesisInfo(), "1.1.0", 1, common.MultiShard); err != nil {
-			t.Fatalf("c12: handshake on the fake stream failed: %v", err)
-		}
-		if err := s.h.VerifRegister(p); err != nil {
-			t.Fatal(err)
-		}
-		go p.VerifBroadcast()
-		return st, &c12Peer{
-			handle:     func() error { return s.h.VerifHandle(p) },
-			readStatus: func() error { return p.VerifReadStatus(r.Chain.Network(), r.Chain.GenesisInfo()) },
-			reset:      p.VerifResetReader,
-			known:      p.VerifKnownHeight,
-			manifest:   p.VerifManifest,
-			queued:     func() int { a, b, c, d := p.VerifQueued(); return a + b + c + d },
-		}
-	}
-	var pa *c12Peer
-	s.sa, pa = mk("c12-hostile-" + name)
-	s.sb, _ = mk("c12-bystander-" + name)
+	s.sa = &c12Stream{conn: &c12Conn{id: peer.ID("c12-hostile-" + name)}}
+	s.sb = &c12Stream{conn: &c12Conn{id: peer.ID("c12-bystander-" + name)}}
 	s.pidA = s.sa.conn.id
-	c12Peers[s] = pa
+	s.t = t
+	c12Peers[s] = s.connect(s.sa)
+	s.connect(s.sb)
 	return s
+}
+
+// connect does what runPeer does with a fresh stream: new peer object, the real handshake
+// (the remote side's handshake message is waiting in the fake stream), registration, writer.
+func (s *c12Sut) connect(st *c12Stream) *c12Peer {
+	r := s.node.R
+	p := s.h.VerifNewPeer(st)
+	st.set(c12StreamBytes(c12Frame(protocol.Handshake, c12HandshakePayload(r, time.Now().UTC().Unix(), 1000000), 0, 0)))
+	if err := p.Handshake(r.Chain.Network(), r.Head().Height(), r.Chain.GenesisInfo(), "1.1.0", 1, common.MultiShard); err != nil {
+		s.t.Fatalf("c12: handshake on the fake stream failed: %v", err)
+	}
+	if err := s.h.VerifRegister(p); err != nil {
+		s.t.Fatal(err)
+	}
+	go p.VerifBroadcast()
+	return &c12Peer{
+		handle:     func() error { return s.h.VerifHandle(p) },
+		readStatus: func() error { return p.VerifReadStatus(r.Chain.Network(), r.Chain.GenesisInfo()) },
+		known:      p.VerifKnownHeight,
+		manifest:   p.VerifManifest,
+		queued:     func() int { a, b, c, d := p.VerifQueued(); return a + b + c + d },
+	}
+}
+
+// reconnect: the node drops a peer whose stream failed (unregisterPeer, real) and the
+// hostile side dials again.
+func (s *c12Sut) reconnect() {
+	s.h.VerifUnregister(s.pidA)
+	s.sa.set(nil)
+	c12Peers[s] = s.connect(s.sa)
 }
 
 func (s *c12Sut) peer() *c12Peer { return c12Peers[s] }
@@ -234,6 +246,9 @@ var c12AsyncFns = []string{"mempool.(*AsyncTxPool).loop", "mempool.(*AsyncKeysPo
 
 // c12Settle waits until the node's own intake / relay goroutines have drained their queues.
 func c12Settle(c *c12Ctx) {
+	if c12Timing {
+		defer func(t0 time.Time) { c.rep.Count("us:settle", int(time.Since(t0)/time.Microsecond)) }(time.Now())
+	}
 	if !verifutil.WaitParked(60*time.Second, c12AsyncFns...) {
 		c.rep.Count("settle_timeouts", 1)
 		if c.rep.Get("settle_timeouts") <= 3 {
@@ -595,7 +610,12 @@ type c12Ctx struct {
 	desc string // descriptor of the running case
 	stop bool   // a hang was declared: the goroutine is lost, end this child's workload
 	nSam int
+	// bytes the running stage was handed when that is more than the input itself (the
+	// handler works on the decompressed message; the expansion is Decode's to answer for)
+	given int
 }
+
+var c12Timing = os.Getenv("VERIF_C12_TIMING") != ""
 
 func c12Hex(b []byte, max int) string {
 	if len(b) > max {
@@ -613,9 +633,13 @@ func c12HarnessPanic(stack string) bool {
 // call runs one entry point under the three oracles. input is what the remote side
 // controls (for the allocation bound and the replay).
 func (c *c12Ctx) call(entry string, input []byte, meter bool, f func()) bool {
+	t0 := time.Now()
 	res := verifutil.Guard(c12Soft, c12Hard, meter, f)
 	c.rep.Eval(1)
 	c.rep.Count("calls:"+entry, 1)
+	if c12Timing {
+		c.rep.Count("us:"+entry, int(time.Since(t0)/time.Microsecond))
+	}
 	replay := func(extra map[string]interface{}) map[string]interface{} {
 		m := map[string]interface{}{"entry": entry, "case": c.desc, "input_len": len(input), "input_hex": c12Hex(input, 1<<16),
 			"seed": verifutil.Seed(), "shard": verifutil.Shard(), "nshards": verifutil.NShards(), "tier_thorough": verifutil.Thorough()}
@@ -646,9 +670,13 @@ func (c *c12Ctx) call(entry string, input []byte, meter bool, f func()) bool {
 	}
 	if meter {
 		c.rep.Max("max_alloc_bytes_one_call", int(res.Alloc))
-		if res.Alloc > verifutil.AllocBound(len(input)) {
-			c.rep.Violation("alloc:"+entry, fmt.Sprintf("%s allocated %d bytes (%.1f MiB) for an input of %d bytes (bound 64 MiB + 64 B/byte = %d): case %s, input %s", entry, res.Alloc,
-				float64(res.Alloc)/(1<<20), len(input), verifutil.AllocBound(len(input)), c.desc, c12Hex(input, 600)), replay(map[string]interface{}{"allocated": res.Alloc}))
+		n := len(input)
+		if c.given > n {
+			n = c.given
+		}
+		if res.Alloc > verifutil.AllocBound(n) {
+			c.rep.Violation("alloc:"+entry, fmt.Sprintf("%s allocated %d bytes (%.1f MiB) for an input of %d bytes on the wire (%d bytes handed to this stage; bound 64 MiB + 64 B/byte = %d): case %s, input %s", entry, res.Alloc,
+				float64(res.Alloc)/(1<<20), len(input), n, verifutil.AllocBound(n), c.desc, c12Hex(input, 600)), replay(map[string]interface{}{"allocated": res.Alloc, "stage_input_len": n}))
 			return false
 		}
 	}
@@ -662,7 +690,7 @@ func (c *c12Ctx) sample(v interface{}) {
 	}
 }
 
-var c12Digits = strings.NewReplacer("0", "#", "1", "#", "2", "#", "3", "#", "4", "#", "5", "#", "6", "#", "7", "#", "8", "#", "9", "#")
+var c12Variable = regexp.MustCompile(`0x[0-9a-fA-F]+|[0-9a-fA-F]{6,}|[0-9]+(\.[0-9]+)?(e[+-]?[0-9]+)?`)
 
 // c12ErrClass strips everything variable from an error text.
 func c12ErrClass(err error) string {
@@ -676,10 +704,10 @@ func c12ErrClass(err error) string {
 			m = m[:i] + "<msg>" + m[j+1:]
 		}
 	}
-	m = c12Digits.Replace(m)
-	for strings.Contains(m, "##") {
-		m = strings.ReplaceAll(m, "##", "#")
+	if i := strings.Index(m, "bad genesis block"); i >= 0 {
+		m = m[:i] + "bad genesis block"
 	}
+	m = c12Variable.ReplaceAllString(m, "#")
 	return verifutil.Trunc(m, 80)
 }
 
@@ -689,6 +717,7 @@ type c12Decoded struct {
 	ok   bool
 	code uint64
 	msg  *protocol.Msg
+	size int // decompressed size
 }
 
 // preDecode runs the first two stages of protoPeer.ReadMsg on their own (metered), so that
@@ -705,14 +734,15 @@ func (c *c12Ctx) preDecode(frame []byte) (d c12Decoded, proceed bool) {
 		return d, true
 	}
 	m := new(protocol.Msg)
+	c.given = len(data)
 	if !c.call("protocol.Msg.FromBytes", frame, true, func() { err = m.FromBytes(data) }) {
 		return d, false
 	}
 	if err != nil {
 		c.rep.Count("outcome:rejected-frame", 1)
-		return d, true
+		return c12Decoded{size: len(data)}, true
 	}
-	return c12Decoded{ok: true, code: m.Code, msg: m}, true
+	return c12Decoded{ok: true, code: m.Code, msg: m, size: len(data)}, true
 }
 
 // forged tells whether frame belongs to the forged-length class.
@@ -728,11 +758,15 @@ func c12Forged(frame []byte) bool {
 func (s *c12Sut) feed(c *c12Ctx, entry string, stream []byte) (error, bool) {
 	s.sa.set(stream)
 	var err error
-	ok := c.call(entry, stream, true, func() { err = s.peer().handle() })
-	if s.sa.left() > 0 || err != nil {
-		// a real node drops the connection on any error; the next case is a new connection
-		s.sa.set(nil)
-		s.peer().reset()
+	f := s.peer().handle
+	if entry == "protoPeer.readStatus" {
+		f = s.peer().readStatus
+	}
+	ok := c.call(entry, stream, true, func() { err = f() })
+	// a stream that did not carry exactly one complete length-prefixed message leaves the
+	// reader half-way: the real node drops such a peer, the next case is a new connection
+	if complete := len(stream) >= 4 && uint64(binary.BigEndian.Uint32(stream)) == uint64(len(stream)-4) && len(stream)-4 <= 8<<20; !complete || s.sa.left() > 0 {
+		s.reconnect()
 	}
 	return err, ok
 }
